@@ -176,6 +176,8 @@ impl Model {
 
 /// Uniform view of `Graph` and `StableGraph` through their inherent methods.
 pub trait GLike {
+    /// upper limit on the items read from any iterator (a corrupted structure may loop)
+    fn v_cap(&self) -> usize;
     /// largest index value the index type can express
     fn v_max_index(&self) -> usize;
     fn v_node_count(&self) -> usize;
@@ -200,6 +202,11 @@ pub trait GLike {
     fn v_contains_edge(&self, a: usize, b: usize) -> bool;
     fn v_find_edge_undirected(&self, a: usize, b: usize) -> Option<(usize, Direction)>;
     fn v_externals(&self, d: Direction) -> Vec<usize>;
+    /// the four whole-graph iterators consumed from the back (DoubleEndedIterator), and, mixed: one item
+    /// from the front then the rest from the back
+    fn v_rev_iters(&self) -> (Vec<usize>, Vec<usize>, Vec<(usize, W)>, Vec<(usize, usize, usize, W)>, Vec<usize>);
+    /// size hints (lower, upper) of node_indices, edge_indices, node_references, edge_references
+    fn v_size_hints(&self) -> Vec<(usize, Option<usize>)>;
     /// detached walker started from neighbors_directed / neighbors_undirected: (edge, node) via next(),
     /// nodes via next_node(), edges via next_edge()
     fn v_walk(&self, a: usize, d: Option<Direction>) -> (Vec<(usize, usize)>, Vec<usize>, Vec<usize>);
@@ -208,6 +215,9 @@ pub trait GLike {
 macro_rules! impl_glike {
     ($ty:ident) => {
         impl<Ty: EdgeType, Ix: IndexType> GLike for $ty<W, W, Ty, Ix> {
+            fn v_cap(&self) -> usize {
+                4 * (self.node_count() + self.edge_count()) + 64
+            }
             fn v_max_index(&self) -> usize {
                 <Ix as IndexType>::max().index()
             }
@@ -230,40 +240,41 @@ macro_rules! impl_glike {
                 self.edge_endpoints(EdgeIndex::new(e)).map(|(a, b)| (a.index(), b.index()))
             }
             fn v_node_indices(&self) -> Vec<usize> {
-                self.node_indices().map(|x| x.index()).collect()
+                self.node_indices().take(self.v_cap()).map(|x| x.index()).collect()
             }
             fn v_edge_indices(&self) -> Vec<usize> {
-                self.edge_indices().map(|x| x.index()).collect()
+                self.edge_indices().take(self.v_cap()).map(|x| x.index()).collect()
             }
             fn v_node_weights(&self) -> Vec<W> {
-                self.node_weights().copied().collect()
+                self.node_weights().take(self.v_cap()).copied().collect()
             }
             fn v_edge_weights(&self) -> Vec<W> {
-                self.edge_weights().copied().collect()
+                self.edge_weights().take(self.v_cap()).copied().collect()
             }
             fn v_node_references(&self) -> Vec<(usize, W)> {
-                IntoNodeReferences::node_references(self).map(|(i, w)| (i.index(), *w)).collect()
+                IntoNodeReferences::node_references(self).take(self.v_cap()).map(|(i, w)| (i.index(), *w)).collect()
             }
             fn v_edge_references(&self) -> Vec<(usize, usize, usize, W)> {
-                IntoEdgeReferences::edge_references(self).map(|e| (e.id().index(), e.source().index(), e.target().index(), *e.weight())).collect()
+                IntoEdgeReferences::edge_references(self).take(self.v_cap()).map(|e| (e.id().index(), e.source().index(), e.target().index(), *e.weight())).collect()
             }
             fn v_neighbors(&self, a: usize) -> Vec<usize> {
-                self.neighbors(NodeIndex::new(a)).map(|x| x.index()).collect()
+                self.neighbors(NodeIndex::new(a)).take(self.v_cap()).map(|x| x.index()).collect()
             }
             fn v_neighbors_directed(&self, a: usize, d: Direction) -> Vec<usize> {
-                self.neighbors_directed(NodeIndex::new(a), d).map(|x| x.index()).collect()
+                self.neighbors_directed(NodeIndex::new(a), d).take(self.v_cap()).map(|x| x.index()).collect()
             }
             fn v_neighbors_undirected(&self, a: usize) -> Vec<usize> {
-                self.neighbors_undirected(NodeIndex::new(a)).map(|x| x.index()).collect()
+                self.neighbors_undirected(NodeIndex::new(a)).take(self.v_cap()).map(|x| x.index()).collect()
             }
             fn v_edges(&self, a: usize) -> Vec<(usize, usize, usize, W)> {
-                self.edges(NodeIndex::new(a)).map(|e| (e.id().index(), e.source().index(), e.target().index(), *e.weight())).collect()
+                self.edges(NodeIndex::new(a)).take(self.v_cap()).map(|e| (e.id().index(), e.source().index(), e.target().index(), *e.weight())).collect()
             }
             fn v_edges_directed(&self, a: usize, d: Direction) -> Vec<(usize, usize, usize, W)> {
-                self.edges_directed(NodeIndex::new(a), d).map(|e| (e.id().index(), e.source().index(), e.target().index(), *e.weight())).collect()
+                self.edges_directed(NodeIndex::new(a), d).take(self.v_cap()).map(|e| (e.id().index(), e.source().index(), e.target().index(), *e.weight())).collect()
             }
             fn v_edges_connecting(&self, a: usize, b: usize) -> Vec<(usize, usize, usize, W)> {
                 self.edges_connecting(NodeIndex::new(a), NodeIndex::new(b))
+                    .take(self.v_cap())
                     .map(|e| (e.id().index(), e.source().index(), e.target().index(), *e.weight()))
                     .collect()
             }
@@ -277,7 +288,35 @@ macro_rules! impl_glike {
                 self.find_edge_undirected(NodeIndex::new(a), NodeIndex::new(b)).map(|(e, d)| (e.index(), d))
             }
             fn v_externals(&self, d: Direction) -> Vec<usize> {
-                self.externals(d).map(|x| x.index()).collect()
+                self.externals(d).take(self.v_cap()).map(|x| x.index()).collect()
+            }
+            fn v_rev_iters(&self) -> (Vec<usize>, Vec<usize>, Vec<(usize, W)>, Vec<(usize, usize, usize, W)>, Vec<usize>) {
+                let mut mixed = Vec::new();
+                let mut it = self.node_indices();
+                if let Some(x) = it.next() {
+                    mixed.push(x.index());
+                }
+                while let Some(x) = it.next_back() {
+                    mixed.push(x.index());
+                    if mixed.len() > self.v_cap() {
+                        break;
+                    }
+                }
+                (
+                    self.node_indices().rev().take(self.v_cap()).map(|x| x.index()).collect(),
+                    self.edge_indices().rev().take(self.v_cap()).map(|x| x.index()).collect(),
+                    IntoNodeReferences::node_references(self).rev().take(self.v_cap()).map(|(i, w)| (i.index(), *w)).collect(),
+                    IntoEdgeReferences::edge_references(self).rev().take(self.v_cap()).map(|e| (e.id().index(), e.source().index(), e.target().index(), *e.weight())).collect(),
+                    mixed,
+                )
+            }
+            fn v_size_hints(&self) -> Vec<(usize, Option<usize>)> {
+                vec![
+                    self.node_indices().size_hint(),
+                    self.edge_indices().size_hint(),
+                    IntoNodeReferences::node_references(self).size_hint(),
+                    IntoEdgeReferences::edge_references(self).size_hint(),
+                ]
             }
             fn v_walk(&self, a: usize, d: Option<Direction>) -> (Vec<(usize, usize)>, Vec<usize>, Vec<usize>) {
                 let start = || match d {
@@ -371,6 +410,22 @@ pub fn observe<G: GLike>(g: &G, m: &Model, p: &str, ordered: bool, light: bool) 
         "edge_references",
         "edge_references()"
     );
+    // the same iterators from the back, and their size hints
+    {
+        let (rn, re, rnr, rer, mixed) = g.v_rev_iters();
+        let rev = |v: &Vec<usize>| v.iter().rev().copied().collect::<Vec<_>>();
+        chk_eq!(rn, rev(&ln), p, "node_indices-rev", "node_indices().rev()");
+        chk_eq!(re, rev(&le), p, "edge_indices-rev", "edge_indices().rev()");
+        chk_eq!(rnr.iter().map(|x| x.0).collect::<Vec<_>>(), rev(&ln), p, "node_references-rev", "node_references().rev()");
+        chk_eq!(rer.iter().map(|x| x.0).collect::<Vec<_>>(), rev(&le), p, "edge_references-rev", "edge_references().rev()");
+        let mut exp_mixed: Vec<usize> = ln.iter().take(1).copied().collect();
+        exp_mixed.extend(ln.iter().skip(1).rev().copied());
+        chk_eq!(mixed, exp_mixed, p, "node_indices-double-ended", "node_indices(): next() then next_back() until exhausted");
+        let lens = [ln.len(), le.len(), ln.len(), le.len()];
+        for (k, (lo, hi)) in g.v_size_hints().into_iter().enumerate() {
+            chk!(lo <= lens[k] && hi.map_or(true, |h| h >= lens[k]), p, "size_hint", "size_hint ({lo}, {hi:?}) of whole-graph iterator #{k} does not bracket its length {}", lens[k]);
+        }
+    }
     // externals
     for d in [Outgoing, Incoming] {
         let exp: Vec<usize> = ln
